@@ -41,6 +41,8 @@ type LoopContract struct {
 	Invariants []Clause
 	Decreases  string
 	Unroll     int
+	Uses       []string
+	Exits      []Clause // asserted (proved, then assumed) on every edge leaving the loop
 }
 
 type FuncContract struct {
@@ -229,6 +231,10 @@ func (cs *ContractSet) parseFile(path, pkgPath string) error {
 				lc.Invariants = append(lc.Invariants, Clause{Expr: m[5], Props: splitProps(m[3]), File: path, Line: pendLine})
 			case "decreases":
 				lc.Decreases = m[5]
+			case "use":
+				lc.Uses = append(lc.Uses, m[5])
+			case "exit":
+				lc.Exits = append(lc.Exits, Clause{Expr: m[5], Props: splitProps(m[3]), File: path, Line: pendLine})
 			case "unroll":
 				k, err := strconv.Atoi(strings.TrimSpace(m[5]))
 				if err != nil {
